@@ -68,6 +68,20 @@ def producers():
             if T in GROW_KEY_TYPES:
                 out.append(('Int', T, 'Int', 'iter:%sK+g' % c, T, True))
                 out.append(('Int', T, 'Int', 'last:%sK+g' % c, T, True))
+    for T in ELEM_TYPES:
+        # elements of a container obtained by copy(c) ("+c") or by assign(fresh, c) ("+a"): Array_Assign,
+        # List_Assign, Table_Assign, Tree_Assign recompute element types and sizes themselves.  Key and value
+        # types of different sizes, both ways (Int 8, U0 16, U1 32, Array 40 bytes ...)
+        for how in ('+c', '+a', '+g+a'):
+            for c in ('Array', 'List'):
+                out.append((T, 'Int', 'Int', 'get:%s%s' % (c, how), T, True))
+                out.append((T, 'Int', 'Int', 'last:%s%s' % (c, how), T, True))
+            for c in ('Table', 'Tree'):
+                for K in (('Int', 'U0') if how != '+g+a' else ('Int',)):
+                    out.append(('Int', K, T, 'get:%sV%s' % (c, how), T, True))
+                if T in KEY_TYPES and how != '+g+a' or T in GROW_KEY_TYPES:
+                    for V in ('Int', 'U1'):
+                        out.append(('Int', T, V, 'iter:%sK%s' % (c, how), T, True))
     for T in EXTRA_TYPES:
         for p in HEAP_PRODUCERS:
             if p != 'copy':
@@ -102,20 +116,30 @@ MATCHED = {      # producer -> histories whose total number of releases the prop
 }
 
 
+def excluded(ngc, T, p, op):
+    """cells left out of the matrix and of the random histories (reasons in design.d/C19.md)"""
+    base = p.split(':')[0]
+    if op == 'sweep' and base in ('range_heap', 'zip_heap'):
+        return True       # released by their owner's destructor: C06 (defect D18), not this property
+    if op == 'sweep' and '+c' in p:
+        return True       # copy(c) is collector-managed: an unmarked sweep rightly reclaims it with its elements
+    if T == 'Range' and ((base.startswith('alloc') and not op.startswith('dealloc')) or
+                         (ngc and base == 'stack' and op == 'destruct')):
+        # Range_Del is del(r->value): on a merely alloc'ed (never constructed) Range that is del(NULL),
+        # whatever runs the destructor (del*, a sweep); on a stack Range it is del of its stack Int
+        # (ResourceError without the collector). The destructor refuses, nothing is released; the model
+        # has no "owner" kind, so these cells are left out
+        return True
+    return False
+
+
 def matrix():
     cases = []
     for ngc in (0, 1):
         for (T, K, V, p, ot, constructed) in producers():
             base = p.split(':')[0]
             for op in ops_for(ot, ngc, constructed):
-                if op == 'sweep' and base in ('range_heap', 'zip_heap'):
-                    continue      # released by their owner's destructor: C06 (defect D18), not this property
-                if T == 'Range' and ((base.startswith('alloc') and not op.startswith('dealloc')) or
-                                     (ngc and base == 'stack' and op == 'destruct')):
-                    # Range_Del is del(r->value): on a merely alloc'ed (never constructed) Range that is del(NULL),
-                    # whatever runs the destructor (del*, a sweep); on a stack Range it is del of its stack Int
-                    # (ResourceError without the collector). The destructor refuses, nothing is released; the model
-                    # has no "owner" kind, so these cells are left out of the matrix (design.d/C19.md)
+                if excluded(ngc, T, p, op):
                     continue
                 cases.append('%d %s %s %s %s %s' % (ngc, T, K, V, p, op))
             for h in MATCHED[ngc].get(base, []):
@@ -143,7 +167,7 @@ def random_histories(rng, n):
     for _ in range(n):
         T, K, V, p, ot, constructed = rng.choice(prods)
         ngc = rng.choice((0, 0, 1))
-        ops = ops_for(ot, ngc, constructed)
+        ops = [o for o in ops_for(ot, ngc, constructed) if not excluded(ngc, T, p, o)]
         k = rng.choice((2, 2, 3, 3, 4, 6))
         # bias towards the in-place operations of String/Tuple when present
         extra = [o for o in ops if o in S_OPS + T_OPS + ['destruct']]
@@ -176,10 +200,12 @@ def parse_impl(line):
     use = None
     if ' ; use=' in line:
         line, u = line.split(' ; use=')
-        use = u.strip()
+        use = u.strip()          # "<use> lay=<lay>"
     parts = line.split(' | ')
     m = re.match(r'^T=(\S+) A=(-?\d+) R=(\d) D=(-?\d)$', parts[0])
     if not m:
+        if 'CRASH' in line or 'TIMEOUT' in line:
+            return 'the library crashed or hung while the object was being obtained: ' + line.strip()[:120]
         return 'no object obtained: ' + line[:200]
     steps = []
     for p in parts[1:]:
@@ -216,7 +242,11 @@ def oracle_detail(case, impl, spec):
         fails.append(('allocation class word is %d, expected %s' % (head['A'], m.group(2)), False))
     if head['D'] != '1':
         fails.append(('the type the container/view declares for its items (iter_type / key_type / val_type) is not the type_of the object handed out', False))
-    if use != '1':
+    uf = (use or '').split(' lay=')
+    if len(uf) == 2 and uf[1] != '1':
+        fails.append(('size(type) bytes are not usable: header + size(type) bytes of the object (or of another key/value/element of the '
+                      'container it came from) do not lie inside one block the library requested from malloc, or overlap a neighbour', False))
+    elif uf[0] != '1':
         fails.append(('size(type) bytes of the object are not usable (pattern write/read or header damaged)', False))
     demands, total = sp[1:-1], sp[-1].split('=')[1]
     ops = case.split(' ')[5].split(',')
@@ -344,7 +374,7 @@ def run(ctx):
                 ctx.findings.append(f)
     ctx.cov['rule'] = (
         'EXHAUSTIVE finite matrix, no sampling: every (type in %s + Type) x (producer: new/new_raw/new_root/alloc/alloc_raw/'
-        'alloc_root/copy/$-stack/static type object/run-time type/get of Array,List,Table,Tree (fresh, and after growth+shrinking moved the elements)/iter_init,iter_last,iter_next,'
+        'alloc_root/copy/$-stack/static type object/run-time type/get of Array,List,Table,Tree (fresh, after growth+shrinking moved the elements, from copy(c), from assign(fresh,c); key and value types of different sizes)/iter_init,iter_last,iter_next,'
         'iter_prev of each container/items of slice,filter,map views/range and zip items (stack and heap form)/Tuple members) '
         'x (operation: del,del_raw,del_root,dealloc,dealloc_raw,dealloc_root,destruct,sweep + every reallocating member of String '
         'and Tuple) x (collector compiled in / -DCELLO_NGC), plus the matched delete/sweep histories of heap objects, plus seeded '
@@ -353,13 +383,13 @@ def run(ctx):
         % ','.join(ELEM_TYPES + EXTRA_TYPES))
     ctx.assumptions += [
         'C text tied by correspondence only: extracted Gallina model vs library built from the working tree; header words read '
-        'directly, free/realloc interposed with -Wl,--wrap',
+        'directly, free/realloc/malloc/calloc interposed with -Wl,--wrap (requested block sizes recorded),',
         'constants of the model (enum codes, class written at each header_init call site, dealloc refusals, del_by order, '
         'String/Tuple guards) are regenerated from the source by tools/genx_hdr.py on every run',
         'sweep = GC_Sweep with nothing marked (the object is deemed unreachable); conservative stack scanning is not part of this property']
     ctx.coq()
     drv = ctx.build_driver('Header')
-    wrap = ['-Wl,--wrap=free,--wrap=realloc']
+    wrap = ['-Wl,--wrap=free,--wrap=realloc,--wrap=malloc,--wrap=calloc']
     h_gc = ctx.build_harness('header_matrix.c', extra=wrap)
     ctx.build_lib('ngc', cflags=['-DCELLO_NGC'])
     h_ngc = ctx.build_harness('header_matrix.c', tag='ngc', extra=wrap)
